@@ -1303,9 +1303,17 @@ def do_single(run, model, case):
                                                            'address_generator': {'name': 'single-address'}})
                 first = await acc.ensure_address_gap()
                 second = await acc.ensure_address_gap()
+                addr0 = first[0] if first else acc.public_key.address
+                via_ledger = await ledger.get_private_key_for_address(acc.wallet, addr0)
+                via_pub = await ledger.get_public_key_for_address(acc.wallet, addr0)
                 return {'first': list(first), 'second': list(second),
                         'receiving': await acc.receiving.get_addresses(), 'change': await acc.change.get_addresses(),
-                        'pk': acc.public_key.pubkey_bytes.hex(), 'priv_addr': acc.receiving.get_private_key(0).address}
+                        'pk': acc.public_key.pubkey_bytes.hex(), 'priv_addr': acc.receiving.get_private_key(0).address,
+                        'account_key_addr': acc.get_private_key(0, 0).address,
+                        'account_key_is_master': acc.get_private_key(0, 0).private_key_bytes == acc.private_key.private_key_bytes,
+                        'account_pub_addr': acc.get_public_key(0, 0).address,
+                        'ledger_key_addr': via_ledger.address if via_ledger is not None else None,
+                        'ledger_pub_addr': via_pub.address if via_pub is not None else None}
             finally:
                 await ledger.db.close()
         impl = must('single-address Account (from_dict / ensure_address_gap / get_addresses)',
@@ -1319,6 +1327,15 @@ def do_single(run, model, case):
         run.violation(case, f'single-address account: {impl}, expected the one address {want}',
                       signature={'op': 'single', 'mnemonic': case['mnemonic']})
         return
+    for label, got in (('Account.get_private_key(0, 0)', impl['account_key_addr']),
+                       ('Account.get_public_key(0, 0)', impl['account_pub_addr']),
+                       ('Ledger.get_private_key_for_address(wallet, address)', impl['ledger_key_addr']),
+                       ('Ledger.get_public_key_for_address(wallet, address)', impl['ledger_pub_addr'])):
+        if got != want or not impl['account_key_is_master']:
+            run.violation(case, f'single-address account with the one address {want}: {label} gives the key of {got} '
+                                f'(is the account key itself: {impl["account_key_is_master"]}) -- the wallet cannot sign for its own address',
+                          signature={'op': 'single', 'mnemonic': case['mnemonic'], 'lookup': label})
+            return
     run.compare('C06.address', case, {'ok': want}, model.call('address', prefix=prefix.hex(), pk=impl['pk']))
 
 
@@ -1382,6 +1399,10 @@ def do_generator_switch(run, model, case):
             for addr, owner in impl['hd']['keys']:
                 if owner != addr:
                     bad = f'private key handed out for receiving address {addr} belongs to {owner}'
+    if 'single' in impl and impl['single']['keys'] and impl['single']['keys'][0][0] == ref.address(prefix) and \
+            impl['single']['keys'][0][1] != ref.address(prefix):
+        run.violation(case, f'private key handed out for the single address {ref.address(prefix)} belongs to '
+                            f'{impl["single"]["keys"][0][1]}', signature={'op': 'generator_switch', 'lookup': 'single-address key'})
     if not bad and 'single' in impl:
         if impl['single']['rows'] != [[0, ref.address(prefix)]]:
             bad = (f'single-address account of the mnemonic lists {impl["single"]["rows"][:3]}.. instead of its one address '
@@ -1395,6 +1416,77 @@ def do_generator_switch(run, model, case):
     mod = model.call('shared_run', prefix=prefix.hex(), acct=impl['pk'], ops=mops, flt=False)
     run.compare('C06.shared_hd_rows', case, impl.get('hd', {}).get('rows', []), [[r['n'], r['addr']] for r in mod['hd']])
     run.compare('C06.shared_single_rows', case, impl.get('single', {}).get('rows', []), [[r['n'], r['addr']] for r in mod['single']])
+
+
+def do_encrypt_cycle(run, model, case):
+    """account from an arbitrary (imported) seed text: encrypt, write/read the account dict, decrypt with a wrong and
+    with the right password; the seed text, the private key and the addresses must come back"""
+    lname = case['ledger']
+    prefix = LEDGERS[lname].pubkey_address_prefix
+    text, pw = case['mnemonic'], case['password']
+    tmp = tempfile.mkdtemp(prefix='c06_')
+    loop = asyncio.new_event_loop()
+    run.case(case, nontrivial=True)
+    run.count('encrypt-cycle:' + case.get('kind', 'seed'))
+    try:
+        async def go():
+            ledger = LEDGERS[lname]({'db': Database(os.path.join(tmp, 'w.db')), 'headers': Headers(':memory:')})
+            await ledger.db.open()
+            try:
+                acc = Account.from_dict(ledger, Wallet(), {'seed': text})
+                xprv = acc.private_key.extended_key_string()
+                out = {'xpub': acc.public_key.extended_key_string(), 'xprv': xprv}
+                acc.encrypt(pw)
+                d = json.loads(json.dumps(acc.to_dict(), sort_keys=True))          # as written to a wallet file
+                out['stored_seed_is_ciphertext'] = d['seed'] != text and d['encrypted'] is True
+                acc2 = Account.from_dict(ledger, Wallet(), d)
+                out['wrong'] = acc2.decrypt(pw + 'x')
+                out['still_encrypted'] = acc2.encrypted
+                out['right'] = acc2.decrypt(pw)
+                out['encrypted_after'] = acc2.encrypted
+                out['seed'] = acc2.seed
+                out['xprv_after'] = acc2.private_key.extended_key_string() if acc2.private_key is not None else None
+                out['root'] = key_obs(acc2.private_key) if acc2.private_key is not None else None
+                if not acc2.encrypted:
+                    acc2.receiving.gap = 3
+                    await acc2.receiving.ensure_address_gap()
+                    out['addresses'] = await acc2.receiving.get_addresses(order_by='n asc')
+                    out['signing'] = [acc2.get_private_key(0, i).address for i in range(3)]
+                # the same account object: lock and unlock in place
+                acc.decrypt(pw)
+                out['in_place'] = [acc.encrypted, acc.seed, acc.private_key.extended_key_string() if acc.private_key else None]
+                return out
+            finally:
+                await ledger.db.close()
+        impl = must('Account.encrypt / to_dict / from_dict / decrypt', lambda: loop.run_until_complete(go()))
+    finally:
+        loop.close()
+        shutil.rmtree(tmp, ignore_errors=True)
+    sig = {'op': 'encrypt_cycle', 'mnemonic': text, 'password': pw}
+    seed = ref_stretch(text, 'lbryum')
+    ref = RefKey.from_seed(seed)
+    vs, vp = LEDGERS[lname].extended_private_key_prefix, LEDGERS[lname].extended_public_key_prefix
+    want_addr = [ref.neuter().child(0).child(i).address(prefix) for i in range(3)]
+    bad = None
+    if impl['xprv'] != ref.xprv(vs) or impl['xpub'] != ref.xpub(vp):
+        bad = 'account key is not the BIP32 master of the stretched seed text'
+    elif not impl['stored_seed_is_ciphertext']:
+        bad = 'the encrypted account dict still holds the seed text'
+    elif impl['wrong'] or not impl['still_encrypted']:
+        bad = 'a wrong password unlocked the account'
+    elif not impl['right'] or impl['encrypted_after']:
+        bad = (f'the account made from seed text {text!r} was encrypted with {pw!r} and can not be unlocked with that '
+               f'password again (decrypt returned {impl["right"]}): the mnemonic no longer regenerates its keys')
+    elif impl['seed'] != text or impl['xprv_after'] != impl['xprv']:
+        bad = f'after encrypt -> to_dict -> from_dict -> decrypt the seed text / private key changed: {impl["seed"]!r}'
+    elif impl['addresses'] != want_addr or impl['signing'] != want_addr:
+        bad = f'after unlock the receiving addresses are {impl["addresses"]}, private keys for {impl["signing"]}, expected {want_addr}'
+    elif impl['in_place'] != [False, text, impl['xprv']]:
+        bad = f'lock + unlock of the same account object: {impl["in_place"]}'
+    if bad:
+        run.violation(case, bad, signature=sig)
+        return
+    run.compare('C06.from_seed', case, {'ok': impl['root']}, model.call('from_seed', seed=seed.hex()))
 
 
 def do_stretch(run, model, case):
@@ -1425,7 +1517,7 @@ DISPATCH = {
     'b58enc': do_b58enc, 'b58dec': do_b58dec, 'b58check': do_b58check, 'b58check_corrupt': do_b58check_corrupt,
     'xparse': do_xparse, 'xstr': do_xstr, 'derive': do_derive, 'forced': do_forced, 'account': do_account,
     'single': do_single, 'stretch': do_stretch, 'stretch_multi': do_stretch_multi,
-    'addrcheck': do_addrcheck, 'addrvalid': do_addrvalid, 'generator_switch': do_generator_switch, 'normalize': do_normalize, 'stretch_u': do_stretch_u, 'mn': do_mn, 'mndec': do_mndec, 'wordlists': do_wordlists, 'make_seed': do_make_seed, 'scalar': do_scalar,
+    'addrcheck': do_addrcheck, 'addrvalid': do_addrvalid, 'generator_switch': do_generator_switch, 'encrypt_cycle': do_encrypt_cycle, 'normalize': do_normalize, 'stretch_u': do_stretch_u, 'mn': do_mn, 'mndec': do_mndec, 'wordlists': do_wordlists, 'make_seed': do_make_seed, 'scalar': do_scalar,
 }
 
 # ----------------------------------------------------------------------------------------------
@@ -1932,6 +2024,23 @@ def main(run):
                 h = bytes([vb]) * lead + bytes(rng.getrandbits(8) for _ in range(20 - lead))
                 for kind in ('pubkey', 'script'):
                     check_case(run, model, {'op': 'addrcheck', 'ledger': lname, 'kind': kind, 'h160': h.hex(), 'corrupt': []})
+    # imported seed texts (not produced by make_seed): encrypt -> account dict -> decrypt
+    bip39 = 'abandon abandon abandon abandon abandon abandon abandon abandon abandon abandon abandon about'
+    spanish_nfc = unicodedata.normalize('NFC', 'ábaco abdomen abeja abierto abogado abono aborto abrazo abrir abuelo abuso ácido')
+    imported = [('bip39', bip39), ('capitalised', bip39.title()), ('spanish', spanish_nfc), ('text', 'correct horse battery staple'),
+                ('one-word', wordlist('english')[rng.randrange(2048)]),
+                ('random-words', ' '.join(wordlist('english')[rng.randrange(2048)] for _ in range(12)))]
+    for kind, text in imported * n:
+        check_case(run, model, {'op': 'encrypt_cycle', 'ledger': rng.choice(['main', 'regtest']), 'mnemonic': text,
+                                'password': rng.choice(['hunter2', 'pässwörd', 'x', 'correct horse']), 'kind': kind})
+    _r = __import__('random').Random(rng.getrandbits(32))
+    _old = mnemonic_mod.randbelow
+    mnemonic_mod.randbelow = lambda k: _r.randrange(k)
+    try:
+        made = Mnemonic().make_seed()
+    finally:
+        mnemonic_mod.randbelow = _old
+    check_case(run, model, {'op': 'encrypt_cycle', 'ledger': 'main', 'mnemonic': made, 'password': 'hunter2', 'kind': 'make_seed'})
     # one database, the same mnemonic as single-address and as deterministic account, in each order
     english_words = wordlist('english')
     for order in (['single', 'hd'], ['hd', 'single'], ['single', 'hd', 'single', 'hd']) * n:
